@@ -14,7 +14,10 @@ import (
 	v1 "k8s.io/api/core/v1"
 	metav1 "k8s.io/apimachinery/pkg/apis/meta/v1"
 
+	apiequality "k8s.io/apimachinery/pkg/api/equality"
+
 	apps "github.com/pingcap/advanced-statefulset/client/apis/apps/v1"
+	"github.com/pingcap/advanced-statefulset/pkg/controller/statefulset"
 )
 
 type Scenario struct {
@@ -148,6 +151,26 @@ func (w *World) podTemplateOK(set *apps.StatefulSet, p *v1.Pod) bool {
 	return true
 }
 
+// updDataOK: C08 on the real objects - the revision named as update revision is stored, and its recorded data,
+// applied to the set, reproduces the set's current pod template exactly.
+func (w *World) updDataOK(set *apps.StatefulSet, name string) string {
+	r := w.e.apiRev(name)
+	if r == nil || set == nil {
+		return "upd-data-missing"
+	}
+	restored, err := statefulset.ApplyRevision(set, r)
+	if err != nil {
+		return "upd-data-unapplicable"
+	}
+	if !apiequality.Semantic.DeepEqual(restored.Spec.Template, set.Spec.Template) {
+		return "upd-data-differs"
+	}
+	if ok, err := statefulset.Match(set, r); err != nil || !ok {
+		return "upd-data-nomatch"
+	}
+	return "upd-data-ok"
+}
+
 func claimOK(set *apps.StatefulSet, c *v1.PersistentVolumeClaim) bool {
 	if c.Namespace != set.Namespace {
 		return false
@@ -217,7 +240,7 @@ func (w *World) PlanView(set *apps.StatefulSet, pre map[string]*kubeapps.Control
 				}
 				d.Ints = []int{int(s.Status.ObservedGeneration), int(s.Status.Replicas), int(s.Status.ReadyReplicas),
 					int(s.Status.CurrentReplicas), int(s.Status.UpdatedReplicas), coll}
-				d.Strs = []string{w.absRevName(setName, s.Status.CurrentRevision), w.absRevName(setName, s.Status.UpdateRevision)}
+				d.Strs = []string{w.absRevName(setName, s.Status.CurrentRevision), w.absRevName(setName, s.Status.UpdateRevision), w.updDataOK(set, s.Status.UpdateRevision)}
 			}
 		case c.Verb == "patch":
 			d.Det = patchKind(c.Det)
